@@ -214,7 +214,8 @@ def r3(ctx: Ctx) -> None:
         inner = sp[2][0]
         i_ = inner[3][0][0]
         new_size = (to_poly(("list", (k_num(2),))) + to_poly(size)).to_s()
-        want = (to_poly(("s", new_size, d_)).scale(__import__("fractions").Fraction(1, 2)) - to_poly(("s", radius, i_))).to_s()
+        from framelint.canon import _shift_bound
+        want = (to_poly(("s", new_size, _shift_bound(d_, 1))).scale(__import__("fractions").Fraction(1, 2)) - to_poly(("s", radius, i_))).to_s()
         if inner[2][0] == want and inner[3][0][1] == ("c", ("g", "range"), (n,), ()) and \
                 sp[3][0][1] == ("c", ("g", "range"), ((to_poly(("c", ("g", "len"), (size,), ())) + Poly.const(1)).to_s(),), ()):
             ok = True
